@@ -521,4 +521,12 @@ def run(tier):
     # "an implicit key longer than 1024 characters" - and not one of exactly 1024
     from . import keylimit
     rep.floor("key-length comparisons", keylimit.check(rep, F), 1)
+    # 'a named tag handle that was never declared' is an error only if the declarations of earlier documents are gone: the handle table is cleared with its document and an unknown handle leads to Err (C16's rules, run here as a premise)
+    if os.environ.get("VERIF_NO_PREMISE") != "1":
+        from . import C16 as _C16
+        _sub = _C16.run("quick")
+        _prem = [v for v in _sub.violations if v["rule"] in ('undeclared-handle-err', 'tags-writer', 'tags-reset-at-document-end', 'duplicate-handle-err')]
+        rep.check(not _prem, "tag-handle-table-premise", "Parser.tags", "the table of tag handles no longer provably belongs to one document (%s): a tag can resolve through a "
+                  "declaration of another document, or an undeclared handle be accepted" % "; ".join(sorted({"%s %s" % (v["rule"], v["key"].split(":", 1)[-1][:50]) for v in _prem})[:3]),
+                  detail={"violations_of_C16": len(_prem)})
     return rep
